@@ -95,6 +95,9 @@ def gen_table(rng, n_enums, big=False):
                 rec.append(i + 1)
             elif f == "name":
                 rec.append(rng.choice(NAMES_S + (["w" * 130, "tab\there"] if big else [])))
+                if rng.random() < 0.015:
+                    # fault: the value is not ready the first time(s) its text is asked for
+                    rec[-1] = {"flaky": rec[-1] or "x", "fails": rng.choice([1, 1, 2])}
             elif f == "status":
                 rec.append(rng.choice([0, 1, 2, 3, 10, 17, 200, 999, None, "1", "10", "None", "17", 2.0, "2.0"]))   # (look-alikes of other types too)
             elif f == "level":
@@ -565,6 +568,8 @@ def generate(rng, tier):
             a["op"] = "render"
             a["how"] = rng.choice(["str", "str", "plain", "lines"])
             a["late"] = rng.random() < 0.4
+            if a["how"] == "lines" and not a["late"] and rng.random() < 0.3:
+                a["edit_lines"] = True
             if rng.random() < (0.5 if cur[o]["kind"] == "recfmt" else 0.2):
                 a["poke"] = rng.choice(POKES)
             if a["conf"] == "global" and not a["no_color"] and not a["palette"] and rng.random() < 0.3:
@@ -748,6 +753,10 @@ class World:
         except Violation:
             raise
         except Exception as e:
+            if isinstance(e, rw.ro.TransientError):
+                # injected fault: a cell value was not ready; the caller catches the error, the rendering is over
+                self.stats["transient_value_errors"] = self.stats.get("transient_value_errors", 0) + 1
+                raise _Agreed()
             spec_idx, conf_snapshot, mode = ctx
             ref = self.reference(spec_idx, conf_snapshot, mode)
             if "error" in ref and ref["error"].split(":")[0] == type(e).__name__:
@@ -799,6 +808,8 @@ class World:
                 mode["via_repr"] = True
         else:
             mode = {"via": via, "no_color": bool(op.get("no_color")), "palette": pal, "rec": op.get("rec", 0)}
+            if op.get("edit_lines"):
+                mode["edit_lines"] = True
         conf_arg = None if via == "global" else cm.conf
         snapshot = cm.spec(self.inits)
         r = self.guarded(f"request-{kind}", (spec_idx, snapshot, mode), rw.ro.start_rendering, built, conf_arg, mode)
@@ -873,7 +884,13 @@ def _line_with_format_probe(w, t, i, line):
             if sgr.strip(got) != format(plain, spec):
                 raise Violation("O2", "formatted-line-layout-differs-from-plain",
                                 f"format(line, {spec!r}) gives {sgr.strip(got)!r}, the plain line gives {format(plain, spec)!r}")
-    return rw.ro.line_to_str(line)
+    text = rw.ro.line_to_str(line)
+    if t.mode.get("edit_lines") and hasattr(line, "chunks"):
+        # ... and then goes on working with the line object it was handed (appends a mark, in place): a line is the
+        # consumer's own object once it has been yielded, later lines must not know
+        line += " <seen>"
+        w.stats["yielded_lines_edited"] = w.stats.get("yielded_lines_edited", 0) + 1
+    return text
 
 
 def first_diff(a, b):
@@ -1133,6 +1150,7 @@ def _do_op(w, trace, op, n, k, log, color):
 def _finish(w, trace, status, log, alloc):
     st = dict(w.stats)
     st["fault.rendering_raised_midway"] = st["ref_errors_agreed"]
+    st["fault.cell_value_not_ready"] = st.get("transient_value_errors", 0)
     st["fault.line_task_abandoned"] = st["tasks_abandoned"]
     st["fault.gc_at_scheduled_point"] = st["gc_runs"]
     st["fault.configuration_dropped"] = st["conf_dropped"]
